@@ -329,3 +329,54 @@ pub fn push_to_client(scripted: &Scripted, idx: usize, data: &[u8]) {
         let _ = h.to_client.send(PeerMsg::Data(Bytes::copy_from_slice(data)));
     }
 }
+
+/// One HTTP/3 session (real QUIC listener) carrying all requests.
+pub async fn run_h3(net: &crate::engine::networld::NetWorld, sni: &str, reqs: &[Req], wait: Duration) -> Vec<Obs> {
+    use crate::engine::quic::{h3_session, H3Request};
+    let mut out: Vec<Obs> = reqs.iter().map(|_| Obs::default()).collect();
+    let mut h3reqs = vec![];
+    let mut index = vec![];
+    for (i, r) in reqs.iter().enumerate() {
+        let mut headers: Vec<(Vec<u8>, Vec<u8>)> = vec![(b":method".to_vec(), r.method.as_bytes().to_vec())];
+        if r.method == "CONNECT" {
+            headers.push((b":authority".to_vec(), r.target.as_bytes().to_vec()));
+        } else {
+            let Ok(uri) = r.target.parse::<http::Uri>() else {
+                out[i].error = Some("cannot build request: target".into());
+                continue;
+            };
+            headers.push((b":scheme".to_vec(), uri.scheme_str().unwrap_or("http").as_bytes().to_vec()));
+            headers.push((b":authority".to_vec(), uri.authority().map(|a| a.as_str()).unwrap_or("").as_bytes().to_vec()));
+            headers.push((b":path".to_vec(), uri.path_and_query().map(|p| p.as_str()).unwrap_or("/").as_bytes().to_vec()));
+        }
+        for a in &r.auth {
+            if let AuthHeader::Raw(raw) = a {
+                headers.push((b"proxy-authorization".to_vec(), raw.clone()));
+            }
+        }
+        for (n, v) in &r.extra_headers {
+            headers.push((n.to_ascii_lowercase().into_bytes(), v.clone()));
+        }
+        let connect = r.method == "CONNECT";
+        h3reqs.push(H3Request { headers, body: if connect { r.payload.clone() } else { vec![] }, fin: !connect, fin_after_body: false });
+        index.push(i);
+    }
+    let start = std::time::Instant::now();
+    let (conn, resps) = h3_session(net.addr, sni, &h3reqs, wait).await;
+    for (k, resp) in resps.into_iter().enumerate() {
+        let i = index[k];
+        out[i].after_ms = start.elapsed().as_millis() as u64;
+        out[i].status = resp.status;
+        out[i].headers = resp.headers.iter().map(|(n, v)| (n.clone(), String::from_utf8_lossy(v).into_owned())).collect();
+        out[i].closed = resp.ended || conn.closed;
+        if resp.status == Some(200) && reqs[i].method == "CONNECT" && !reqs[i].payload.is_empty() {
+            out[i].echoed = Some(resp.body == reqs[i].payload);
+        }
+        if resp.status.is_none() {
+            if let Some(e) = &conn.error {
+                out[i].error = Some(e.clone());
+            }
+        }
+    }
+    out
+}
